@@ -111,8 +111,21 @@ func c05Check(t failer, test string, c *c05Case) {
 			}
 		}
 	}
-	for _, all := range []bool{false, true} {
+	for qi := 0; qi < 10; qi++ {
+		all := qi%2 == 1
+		// every way of naming the bindings, incl. the same name twice (an error once there is an element to bind -
+		// there is none here): the collection is resolved first, and it is absent
 		q := &bx.Quant{All: all, Sel: sel, Mode: bx.BindValue, Value: "v", Body: &bx.Match{Sel: bx.Sel{Parts: []string{"v"}}, Op: bx.OpEq, Lit: lit}}
+		switch qi / 2 {
+		case 1:
+			q.Mode, q.Index = bx.BindBoth, "k"
+		case 2:
+			q.Mode, q.Index, q.Value = bx.BindBoth, "v", "v"
+		case 3:
+			q.Mode, q.Index, q.Value = bx.BindIndex, "v", ""
+		case 4:
+			q.Mode = bx.BindDefault
+		}
 		got := c05Eval(t, test, c, q, o, c.Datum)
 		if c.Unknown != nil && got != ref.E {
 			violation(t, "C05", test, c, "quantifier over selector %q with scalar unknown value %s: got %s, want an error", sel.Parts, c.Unknown, got)
